@@ -68,6 +68,8 @@ type Setup struct {
 	Cleanup func()
 	// Ext carries check-specific simulated services to the oracle.
 	Ext any
+	// OnConnected is called from the broker's OnConnected hook (broker task context).
+	OnConnected func(w *World, node int, client server.Client)
 }
 
 // World is one simulated run.
@@ -261,6 +263,11 @@ func (w *World) baseHooks(n int) server.Hooks {
 		OnMsgDropped: func(ctx context.Context, clientID string, msg *gmqtt.Message, err error) {
 			w.RecHook(n, "dropped", drop{clientID, string(msg.Payload), msg.QoS, msg.Topic, fmt.Sprint(err)})
 		},
+		OnConnected: func(ctx context.Context, client server.Client) {
+			if w.Setup != nil && w.Setup.OnConnected != nil {
+				w.Setup.OnConnected(w, n, client)
+			}
+		},
 		OnClosed: func(ctx context.Context, client server.Client, err error) {
 			w.RecHook(n, "closed", [2]string{client.ClientOptions().ClientID, fmt.Sprint(err)})
 		},
@@ -304,6 +311,10 @@ func (w *World) StartNode(n int) {
 	nd.Cfg = w.brokerConfig(n)
 	gen := nd.Gen
 	w.S.Go(fmt.Sprintf("run%d", n), func() {
+		if gen > 1 {
+			// a restarted process: everything the goroutines of the dead one did is in its past
+			simrt.RaceAcquire(unsafe.Pointer(&w.S.EndHB))
+		}
 		opts := []server.Options{server.WithConfig(nd.Cfg), server.WithTCPListener(nd.Ln)}
 		if w.Plan.Params["ws"] != "" {
 			addr := fmt.Sprintf("ws%d.%d", n, gen)
@@ -741,8 +752,6 @@ func Run(t *testing.T, plan *Plan, setup *Setup) (out *Outcome) {
 //go:norace
 func runBubble(t *testing.T, plan *Plan, setup *Setup, out *Outcome) {
 	{
-		simrt.RaceDisable() // the root goroutine is the simulator: its synchronisation is not the system's
-		defer simrt.RaceEnable()
 		maxSteps := plan.Sched.MaxSteps
 		if maxSteps == 0 {
 			maxSteps = 300000
@@ -756,6 +765,8 @@ func runBubble(t *testing.T, plan *Plan, setup *Setup, out *Outcome) {
 		}
 		s := simrt.Start(simrt.Options{Seed: plan.Sched.Seed, SwitchProb: plan.Sched.SwitchProb, Replay: rp})
 		defer simrt.Stop()
+		s.RootRaceDisable() // the root goroutine is the simulator: its synchronisation is not the system's
+		defer s.RootRaceEnable()
 		defer simnet.Unregister()
 		if os.Getenv("VERIF_SCHEDLOG") != "" {
 			s.LogSched = true
